@@ -40,7 +40,7 @@ func colourTokens(r *hx.Rng, g *gx.G, k int) []string {
 	proper := refGreedy(g, r.Perm(n))
 	for i := 0; i < k; i++ {
 		c := append([]int(nil), proper...)
-		switch r.Intn(7) {
+		switch r.Intn(8) {
 		case 0: // proper
 		case 1: // copy a neighbour's colour (improper when the graph has an edge)
 			if n > 0 {
@@ -67,6 +67,14 @@ func colourTokens(r *hx.Rng, g *gx.G, k int) []string {
 			for j := range c {
 				c[j] = c[j]*1000 + 7
 			}
+		case 6: // colours near the ends of the integer range (the model driver reads 63-bit integers)
+			top := 1<<62 - 1
+			for j := range c {
+				c[j] = top - c[j]
+			}
+			if r.Bool() && n > 0 {
+				c[r.Intn(n)] = -top - 1
+			}
 		default: // two colours swapped in a proper colouring stays proper; then one random change
 			if n > 0 {
 				c[r.Intn(n)] = r.Intn(n + 1)
@@ -81,6 +89,9 @@ func gen(g *hx.Gen) {
 	r := g.Rng
 	emit := func(gr *gx.G, nvar, nord, ncol int, reps string) {
 		toks := gx.Variants(r, gr.N, nvar+1, reps)[1:]
+		for i := 0; i < 2; i++ { // provenance variants (prov.go)
+			toks = append(toks, gx.TokString(extraReps[r.Intn(len(extraReps))], r.Perm(gr.N)))
+		}
 		for i := 0; i < nord; i++ {
 			toks = append(toks, gx.TokString('o', r.Perm(gr.N)))
 		}
@@ -97,7 +108,7 @@ func gen(g *hx.Gen) {
 
 	// large graphs with answers known by construction, at sizes / degrees / counter values around
 	// 128, 256 (and 512 in the thorough tier): see constructed.go.  One token per case.
-	sizes := []int{127, 128, 129, 255, 256, 257}
+	sizes := []int{15, 16, 17, 31, 32, 33, 63, 64, 65, 127, 128, 129, 255, 256, 257}
 	if g.Pick(0, 1) == 1 {
 		sizes = append(sizes, 511, 512, 513)
 	}
@@ -142,6 +153,9 @@ func gen(g *hx.Gen) {
 				for i := 0; i < len(all); i++ {
 					toks = append(toks, gx.TokString(all[i], p))
 				}
+				for i := 0; i < len(extraReps); i++ {
+					toks = append(toks, gx.TokString(extraReps[i], p))
+				}
 				toks = append(toks, gx.TokString('o', p))
 			})
 			toks = append(toks, colourTokens(r, gr, 6)...)
@@ -153,6 +167,9 @@ func gen(g *hx.Gen) {
 	for n := 3; n <= top; n++ {
 		gx.AllLabelled(n, func(gr *gx.G) {
 			toks := gx.Variants(r, n, g.Pick(5, 9)+1, all)[1:]
+			for i := 0; i < 2; i++ {
+				toks = append(toks, gx.TokString(extraReps[r.Intn(len(extraReps))], r.Perm(n)))
+			}
 			permutations(n, func(p []int) { toks = append(toks, gx.TokString('o', p)) })
 			toks = append(toks, colourTokens(r, gr, 4)...)
 			g.Emit(gx.CaseLine(gr, 1, toks))
